@@ -58,7 +58,9 @@ fn scripts(rng: &mut Rng, total: usize) -> String {
     let rddef = if rng.chance(1, 8) { "e".to_string() } else { format!("d{}", 1usize << 40) };
     // sometimes every write is short
     let wrdef = if rng.chance(1, 4) { format!("a{}", rng.range(1, 90)) } else if rng.chance(1, 12) { "z".to_string() } else { format!("a{}", 1usize << 40) };
-    format!("script rd={} rddef={} wr={} wrdef={} fl={} fldef=o", j(&rd), rddef, j(&wr), wrdef, j(&fl))
+    // sometimes the transport never gets flushed
+    let fldef = if rng.chance(1, 12) { "b" } else { "o" };
+    format!("script rd={} rddef={} wr={} wrdef={} fl={} fldef={fldef}", j(&rd), rddef, j(&wr), wrdef, j(&fl))
 }
 
 pub fn gen_server(rng: &mut Rng, id: usize) -> Vec<String> {
